@@ -5,8 +5,9 @@
 //! parser is not what is under test) and sends the AST-encoded instruction list to the Lean driver as the
 //! input `(prog (instr…))`; the child receives the pieces as `(texts "…" …)`, parses them again, builds the
 //! program with `Program::from_instructions` and expands.  Output classes:
-//! `(ok N)` (N = body length of the expanded program) | `(recursive instr)` | `(error)` | `(abort "status")` |
-//! `(timeout)`.
+//! `(ok N S)` (N = body length of the expanded program) | `(recursive instr S)` | `(error S)` | `(abort "status")` |
+//! `(timeout)`; `S` = `same` iff `expand_calibrations_with_source_map` and the instruction-by-instruction route
+//! through `Calibrations::expand` end in the same class (same length / same error instruction).
 use qvh::ast::{instruction_to_sexp, instructions_to_sexp};
 use qvh::calgen::{self, parse_pieces, Mode};
 use qvh::*;
@@ -33,10 +34,51 @@ fn handler(payload: &Sexp) -> Sexp {
     // either way (observed by the parent as `(abort "signal: 6 …")`).
     let worker = std::thread::Builder::new().stack_size(STACK_BYTES).spawn(move || {
         let p = Program::from_instructions(parse_pieces(&pieces));
-        match p.expand_calibrations() {
-            Ok(e) => tagged("ok", vec![nat(e.body_instructions().count() as u64)]),
-            Err(ProgramError::RecursiveCalibration(i)) => tagged("recursive", vec![instruction_to_sexp(&i)]),
-            Err(_) => tagged("error", vec![]),
+        // the three public routes into the expansion; each returned error is also formatted
+        let class = |r: Result<usize, ProgramError>| match r {
+            Ok(n) => tagged("ok", vec![nat(n as u64)]),
+            Err(e) => {
+                let _ = format!("{e} {e:#} {e:?}");
+                match e {
+                    ProgramError::RecursiveCalibration(i) => tagged("recursive", vec![instruction_to_sexp(&i)]),
+                    _ => tagged("error", vec![]),
+                }
+            }
+        };
+        let plain = class(p.expand_calibrations().map(|e| e.body_instructions().count()));
+        let mapped = class(p.expand_calibrations_with_source_map().map(|(e, _)| e.body_instructions().count()));
+        // instruction by instruction through `Calibrations::expand`: the first error, else the total length
+        let mut total = 0usize;
+        let mut first_err = None;
+        for i in p.body_instructions() {
+            match p.calibrations.expand(i, &[]) {
+                Ok(Some(v)) => total += v.len(),
+                Ok(None) => total += 1,
+                Err(e) => {
+                    first_err = Some(e);
+                    break;
+                }
+            }
+        }
+        let stepwise = class(match first_err {
+            Some(e) => Err(e),
+            None => Ok(total),
+        });
+        // `stepwise` counts hoisted definitions too, so only its CLASS (and error instruction) is comparable
+        let same_class = |a: &Sexp, b: &Sexp| match (a, b) {
+            (Sexp::List(x), Sexp::List(y)) => match (x.first(), y.first()) {
+                (Some(Sexp::Atom(p)), Some(Sexp::Atom(q))) if p == q => p == "ok" || a == b,
+                _ => false,
+            },
+            _ => false,
+        };
+        let siblings = atom(if plain == mapped && same_class(&plain, &stepwise) { "same" } else { "differs" });
+        match plain {
+            Sexp::List(mut v) => {
+                v.push(siblings);
+                Sexp::List(v)
+            }
+            other => other,
         }
     });
     match worker.expect("spawn worker").join() {
@@ -55,7 +97,7 @@ fn handler(payload: &Sexp) -> Sexp {
 }
 
 /// stack of the thread the expansion runs on (see `handler`)
-const STACK_BYTES: usize = 256 << 10;
+const STACK_BYTES: usize = 128 << 10;
 
 /// Hand-written witnesses (pieces).
 const CORPUS: &[&[&str]] = &[
@@ -81,6 +123,28 @@ const CORPUS: &[&[&str]] = &[
     &["DEFCAL CZ q r:\n\tCZ r 0", "CZ 1 2"],
     // the same instruction twice in sequence (not nested) is fine
     &["DEFCAL X 0:\n\tY 0\n\tY 0", "DEFCAL Y 0:\n\tNOP", "X 0\nX 0"],
+    // near misses: the body instruction differs from the one being expanded in exactly ONE component and has no
+    // match itself — nothing is expanded again, no error
+    &["DEFCAL MEASURE!fast 0 addr:\n\tMEASURE 0 addr", "MEASURE!fast 0 ro[0]"],
+    &["DEFCAL MEASURE 0 addr:\n\tMEASURE!fast 0 addr", "MEASURE 0 ro[0]"],
+    &["DEFCAL MEASURE!a 0 addr:\n\tMEASURE!b 0 addr", "DEFCAL MEASURE!b 0 addr:\n\tMEASURE 0 addr", "MEASURE!a 0 ro[1]"],
+    &["DEFCAL MEASURE 0 addr:\n\tMEASURE 0", "MEASURE 0 ro[0]"],
+    &["DEFCAL MEASURE 0:\n\tMEASURE 0 ro[0]", "MEASURE 0"],
+    &["DEFCAL MEASURE 0 addr:\n\tMEASURE 1 addr", "MEASURE 0 ro[0]"],
+    &["DEFCAL X 0:\n\tDAGGER X 0", "X 0"],
+    &["DEFCAL DAGGER X 0:\n\tX 0", "DAGGER X 0"],
+    &["DEFCAL X 0:\n\tCONTROLLED X 1 0", "X 0"],
+    &["DEFCAL RX(1) 0:\n\tRX(2) 0", "RX(1) 0"],
+    &["DEFCAL RX(1) 0:\n\tRX(1.0+0) 0", "RX(1) 0"],
+    &["DEFCAL U2(1, 2) 0:\n\tU2(2, 1) 0", "U2(1, 2) 0"],
+    &["DEFCAL CZ 0 1:\n\tCZ 1 0", "CZ 0 1"],
+    &["DEFCAL X 0:\n\tX 1", "X 0"],
+    // … and the real thing through named measurements
+    &["DEFCAL MEASURE!a 0 addr:\n\tMEASURE!b 0 addr", "DEFCAL MEASURE!b 0 addr:\n\tMEASURE!a 0 addr", "MEASURE!a 0 ro[1]"],
+    // cycles longer than the number of calibrations: one variable calibration permuting its qubits
+    &["DEFCAL CZ a b:\n\tCZ b a", "CZ 0 1"],
+    &["DEFCAL CCZ a b c:\n\tCCZ b c a", "CCZ 0 1 2"],
+    &["DEFCAL CCZ a b c:\n\tNOP\n\tCCZ b a c", "DEFCAL CCZ 1 0 2:\n\tCCZ 2 1 0", "CCZ 0 1 2"],
     // nothing to expand
     &["H 0"],
     &[],
@@ -104,9 +168,12 @@ const CAL_POOL: &[&str] = &[
     "DEFCAL RY(%t) 0:\n\tRX(2*%t) 0",
     "DEFCAL MEASURE q addr:\n\tMEASURE 0 addr[0]",
     "DEFCAL MEASURE 0 addr:\n\tX 0",
+    "DEFCAL MEASURE!fast q addr:\n\tMEASURE q addr[0]",
+    "DEFCAL MEASURE 1 addr:\n\tMEASURE!fast 1 addr[0]",
 ];
 
-const BODY_POOL: &[&str] = &["X 0", "X 1", "RX(0) 0", "Y 0", "CZ 1 2", "RX(1) 1", "MEASURE 1 ro[0]", "RY(1) 0"];
+const BODY_POOL: &[&str] =
+    &["X 0", "Y 0", "RX(0) 0", "RX(1) 1", "CZ 1 2", "X 1", "MEASURE 1 ro[0]", "RY(1) 0", "MEASURE!fast 1 ro[0]"];
 
 fn run(ctx: &mut Ctx) {
     let mut iso = Isolated::new(Duration::from_secs(30));
@@ -123,6 +190,20 @@ fn run(ctx: &mut Ctx) {
     // (1) corpus
     for parts in CORPUS {
         emit(ctx, parts.iter().map(|s| s.to_string()).collect());
+    }
+    // (1b) chains of n calibrations G0 -> G1 -> … : terminating (the last one is a NOP) and closed into a cycle,
+    // also entered in the middle
+    for n in [1usize, 2, 5, 12, 30] {
+        for cyclic in [false, true] {
+            let mut pieces: Vec<String> = (0..n)
+                .map(|k| {
+                    let next = if k + 1 < n { format!("G{} 0", k + 1) } else if cyclic { "G0 0".to_string() } else { "NOP".to_string() };
+                    format!("DEFCAL G{k} 0:\n\tWAIT\n\t{next}")
+                })
+                .collect();
+            pieces.push(format!("G0 0\nG{} 0", n / 2));
+            emit(ctx, pieces);
+        }
     }
     // (2) exhaustive: ordered selections of up to 2 (quick) / 3 (thorough) pool calibrations x body instructions
     let quick = ctx.quick();
@@ -148,7 +229,7 @@ fn run(ctx: &mut Ctx) {
     for set in &sets {
         for (k, b) in bodies.iter().enumerate() {
             // triples (thorough only): two body instructions, `X 0` and `RX(0) 0`
-            if set.len() == 3 && !(k == 0 || k == 2) {
+            if set.len() == 3 && !(k == 0 || k == 2 || k == 6) {
                 continue;
             }
             let mut pieces: Vec<String> = set.iter().map(|&k| CAL_POOL[k].to_string()).collect();
